@@ -97,8 +97,14 @@ func (s *Service) scheduleSyncCommitteeMessages(ctx context.Context,
 		Uint64("last_slot", uint64(lastSlot)).
 		Msg("Setting sync committee duties for period")
 
+	// Obtaining the duties may have taken some time, so work from the slot as it is now.
+	currentSlot := s.chainTimeService.CurrentSlot()
 	for slot := firstSlot; slot <= lastSlot; slot++ {
-		if slot == s.chainTimeService.CurrentSlot() && notCurrentSlot {
+		// Do not schedule messages for past slots (or the current slot if so instructed).
+		if slot < currentSlot {
+			continue
+		}
+		if slot == currentSlot && notCurrentSlot {
 			continue
 		}
 		go func(duty *synccommitteemessenger.Duty, accounts map[phase0.ValidatorIndex]e2wtypes.Account) {
